@@ -94,7 +94,8 @@ def tested_scalar(op, pot_mod, pot_name, k, tk, rk, order, translate=False):
 
     warnings.simplefilter("ignore")
     g1, g2 = _two_grids(translate)
-    par = Z.params(order, order)
+    # between disjoint grids only the REGULAR order may matter: the singular order is chosen different from it
+    par = Z.params(order, order + 2 if order % 2 else max(1, order - 3))
     test = api.function_space(g1, *tk)
     trial = api.function_space(g2, *rk)
     A = Z.dense(Z.boundary_operator(op, trial, trial, test, par, wavenumber=k))
@@ -121,10 +122,11 @@ SCALAR_CASES = [("laplace_single", "laplace", "single_layer", None), ("laplace_d
 
 
 def ob_numeric_scalar(op, pot_mod, pot_name, k):
-    """bounded: two-grid matrix == tested potential to 1e-12 (octahedron vs displaced tetrahedron; P1 x DP0 and DP1 x P1)."""
+    """bounded: two-grid matrix == tested potential to 1e-12 (octahedron vs displaced tetrahedron; P1 x DP0 and DP1 x P1; regular orders 3 and 6 with a
+    different singular order, which must be irrelevant between disjoint grids)."""
     worst = 0.0
-    for tk, rk, tr in ((("P", 1), ("DP", 0), False), (("DP", 1), ("P", 1), False), (("DP", 0), ("P", 1), True)):
-        err = tested_scalar(op, pot_mod, pot_name, k, tk, rk, 3, tr)
+    for tk, rk, tr, order in ((("P", 1), ("DP", 0), False, 3), (("DP", 1), ("P", 1), False, 6), (("DP", 0), ("P", 1), True, 3)):
+        err = tested_scalar(op, pot_mod, pot_name, k, tk, rk, order, tr)
         worst = max(worst, err)
         if err > 1e-12:
             return violated("%s between disjoint grids%s differs from the tested %s.%s potential by %.2e" % (op, " (second grid = translate of the first)" if tr else "", pot_mod, pot_name, err),
@@ -149,7 +151,7 @@ def tested_maxwell(which, order, k=1.2):
 
     warnings.simplefilter("ignore")
     g1, g2 = _two_grids()
-    par = Z.params(order, order)
+    par = Z.params(order, order + 2 if order % 2 else max(1, order - 3))
     test = api.function_space(g1, "SNC", 0)
     trial = api.function_space(g2, "RWG", 0)
     fac = getattr(bm, which)
